@@ -20,7 +20,9 @@ RULE = (
     "Each example = GrandCanonical scenario (2-7 atoms, atomic or molecular exchange species, 1-3 entries from exchange/displacement leaves "
     "with + and *, optional alias of one move object under a second name, default_label drawn from {unset, None, -1, 0, 3}, arbitrary initial labels) "
     "+ up to N scripted trials. Non-trivial = at least two accepted exchanges and one rejected or failed exchange trial; "
-    "distinct = distinct (table shape, species size, default labels, alias, verdict string prefix)."
+    "distinct = distinct (table shape, species size, default labels, alias, verdict string prefix). "
+    "preselected: (initial labels, template of k atoms, one particle of j atoms handed over through to_add_atoms, verdict list, default_label, "
+    "placement operation); non-trivial = j != k with an accepted and a rejected insertion."
 )
 ASSUMPTIONS = [
     "atoms inserted in one trial arrive in blocks of len(template) in insertion order (ASE Atoms.extend appends)",
@@ -200,16 +202,113 @@ KNOWN = {
 }
 
 
+# ------------------------------------------------------------------ pre-selected particle of another size
+# The machine's model counts inserted particles in units of the exchange template.  The documented hook
+# `to_add_atoms` lets the user insert one particle of any atom count: a small separate part covers that.
+from hypothesis import strategies as st  # noqa: E402
+
+
+@st.composite
+def presel_case(draw):
+    n = draw(st.integers(0, 4))
+    return {"n": n, "labels": [draw(st.integers(-1, 3)) for _ in range(n)], "tpl": draw(st.integers(1, 3)), "add": draw(st.integers(1, 4)),
+            "verdicts": draw(st.lists(st.booleans(), min_size=1, max_size=5)), "default_label": draw(st.sampled_from(["unset", None, -1, 0, 3])),
+            "op": draw(st.sampled_from([None, "Translation", "TranslationRotation"])), "seed": draw(st.integers(0, 2 ** 32))}
+
+
+def run_presel(case):
+    import warnings
+
+    from ase import Atoms
+
+    from quansino.mc.gcmc import GrandCanonical
+    from quansino.moves.exchange import ExchangeMove
+    from quansino.operations import displacement as od
+    from vlib.calcs import FastCalc
+
+    n, k, j = case["n"], case["tpl"], case["add"]
+    labels = ["presel", f"template:{k}", f"added:{j}"]
+    out = {"labels": labels, "nontrivial": j != k and True in case["verdicts"] and False in case["verdicts"],
+           "key": f"{n}|{k}|{j}|{case['verdicts']}|{case['default_label']}|{case['op']}", "violation": None}
+    atoms = Atoms("Ar" * n, positions=[[1.0 + 1.7 * i, 1.0, 1.0 + 0.3 * i] for i in range(n)], cell=[9, 9, 9], pbc=True)
+    atoms.calc = FastCalc("ideal", {})
+    tpl = Atoms("Ne" * k, positions=[[0, 0, 1.1 * i] for i in range(k)])
+    try:
+        with warnings.catch_warnings():
+            warnings.simplefilter("ignore")
+            mc = GrandCanonical(atoms, exchange_atoms=tpl, temperature=300.0, chemical_potential=0.0,
+                                number_of_exchange_particles=len({l for l in case["labels"] if l >= 0}), max_cycles=1, seed=case["seed"])
+            mv = ExchangeMove(np.array(case["labels"], dtype=int), getattr(od, case["op"])() if case["op"] else None, bias_towards_insert=1.0)
+            if case["default_label"] != "unset":
+                mv.default_label = case["default_label"]
+            crit = M.ScriptedCriteria()
+            mc.add_move(mv, criteria=crit, name="x")
+            count = mc.number_of_exchange_particles
+            for t, verdict in enumerate(case["verdicts"]):
+                before = atoms.copy()
+                lab_before = np.array(mv.labels).copy()
+                mv.to_add_atoms = Atoms("He" * j, positions=[[0.4 * i, 0.2 * i, 0.9 * i] for i in range(j)])
+                crit.queue = [verdict]
+                for step in mc.irun(1):
+                    for _ in step:
+                        pass
+                got = mc.move_history[-1][1]
+                where = f"trial {t} (insertion of a pre-selected {j}-atom particle, template has {k} atoms, verdict {verdict})"
+                if got is not verdict and got != verdict:
+                    out["violation"] = {"kind": "presel:verdict", "detail": f"{where}: history {got!r}"}
+                    return out
+                if len(mv.labels) != len(atoms):
+                    out["violation"] = {"kind": "presel:labels-misaligned", "detail": f"{where}: {len(mv.labels)} labels for {len(atoms)} atoms"}
+                    return out
+                if verdict:
+                    if len(atoms) != len(before) + j or not np.array_equal(atoms.numbers[: len(before)], before.numbers):
+                        out["violation"] = {"kind": "presel:atoms", "detail": f"{where}: {len(before)} -> {len(atoms)} atoms"}
+                        return out
+                    new = np.array(mv.labels)[len(before):]
+                    old = np.array(mv.labels)[: len(before)]
+                    if not np.array_equal(old, lab_before):
+                        out["violation"] = {"kind": "presel:survivor-label-changed", "detail": f"{where}: labels of the existing atoms {lab_before.tolist()} -> {old.tolist()}"}
+                        return out
+                    if len(set(new.tolist())) != 1:
+                        out["violation"] = {"kind": "presel:particle-labels", "detail": f"{where}: the atoms of the inserted particle carry labels {new.tolist()}"}
+                        return out
+                    dl = case["default_label"]
+                    if dl not in ("unset", None):
+                        if int(new[0]) != dl:
+                            out["violation"] = {"kind": "presel:default-label", "detail": f"{where}: configured label {dl}, inserted atoms got {new.tolist()}"}
+                            return out
+                    elif int(new[0]) < 0 or int(new[0]) in set(lab_before.tolist()):
+                        out["violation"] = {"kind": "presel:label-not-fresh", "detail": f"{where}: inserted particle got label {int(new[0])}, existing labels {lab_before.tolist()}"}
+                        return out
+                    count += 1
+                else:
+                    if len(atoms) != len(before) or not np.array_equal(atoms.positions, before.positions) or not np.array_equal(atoms.numbers, before.numbers) \
+                            or not np.array_equal(np.array(mv.labels), lab_before):
+                        out["violation"] = {"kind": "presel:rejected-not-restored", "detail": f"{where}: atoms or labels differ after the rejected insertion ({len(before)} -> {len(atoms)} atoms)"}
+                        return out
+                if mc.number_of_exchange_particles != count:
+                    out["violation"] = {"kind": "presel:particle-count", "detail": f"{where}: number_of_exchange_particles={mc.number_of_exchange_particles}, expected {count}"}
+                    return out
+    except Exception as exc:
+        out["violation"] = {"kind": f"presel:raises:{type(exc).__name__}", "detail": f"{case}: {exc!r}"[:400]}
+        out["nontrivial"] = True
+    return out
+
+
 def plan(tier):
     if tier == "quick":
-        return [{"part": "machine", "shards": 16, "budget": {"n_examples": 250, "steps": 25}}]
-    return [{"part": "machine", "shards": 16, "budget": {"n_examples": 2500, "steps": 50}}]
+        return [{"part": "machine", "shards": 14, "budget": {"n_examples": 250, "steps": 25}}, {"part": "preselected", "shards": 2, "budget": {"n_examples": 400}}]
+    return [{"part": "machine", "shards": 14, "budget": {"n_examples": 2500, "steps": 50}}, {"part": "preselected", "shards": 2, "budget": {"n_examples": 8000}}]
 
 
 def run_part(part, seed, shard, nshards, budget):
+    if part == "preselected":
+        return hyp.search(presel_case(), run_presel, budget["n_examples"], seed, part)
     strat = scenario_strategy(set(budget.get("known_active", [])))
     return hyp.run_machine(lambda sink: M.specialise(C05Machine, sink, strat), budget["n_examples"], budget["steps"], seed, part)
 
 
 def replay(part, case):
+    if part == "preselected":
+        return run_presel(case)
     return M.replay_log(C05Machine, case)
